@@ -8,6 +8,16 @@ fn kv(args: &[String]) -> HashMap<String, String> {
 }
 
 fn main() {
+    // a panic that no producer caught (code under test panicked where the harness did not expect it) must not look like a
+    // tool failure: it is reported on one line, which the driver turns into a finding
+    if std::panic::catch_unwind(real_main).is_err() {
+        let last = wv::run::LAST_PANIC.lock().map(|g| g.clone()).unwrap_or_default();
+        println!("WV-PANIC {}", last);
+        std::process::exit(101);
+    }
+}
+
+fn real_main() {
     let args: Vec<String> = std::env::args().collect();
     let a = kv(&args);
     let get = |k: &str, d: &str| a.get(k).cloned().unwrap_or(d.to_string());
